@@ -205,6 +205,13 @@ impl<T> Queue<T> {
         let h = unsafe { head.deref() };
         unsafe { h.next.load(Acquire, guard).as_ref().is_none() }
     }
+
+    /// Applies `f` to the element at the front, if there is one.
+    pub(crate) fn verif_front<R>(&self, f: impl Fn(&T) -> R, guard: &Guard) -> Option<R> {
+        let head = self.head.load(Acquire, guard);
+        let h = unsafe { head.deref() };
+        unsafe { h.next.load(Acquire, guard).as_ref() }.map(|n| f(unsafe { &*n.data.as_ptr() }))
+    }
 }
 
 impl<T> Drop for Queue<T> {
